@@ -147,9 +147,13 @@ impl<'a> SpannedDiagnosticFormatter<'a> {
                 // If we're at the end print the message.
                 out.push_str(&format!(" {}", s));
             } else {
-                // Otherwise set next span to start at the beginning of the next line.
+                // Otherwise set next span to start at the beginning of the next line. `lines()`
+                // ends a line at "\r\n" as well as at "\n", so ask where the next line starts
+                // rather than assuming a one byte separator.
                 out.push('\n');
-                span = Span::new(line_start_byte + source_line.len() + 1, span.end())
+                let next_line = source_lines.peek().unwrap();
+                let next_start = next_line.as_ptr() as usize - self.src.as_ptr() as usize;
+                span = Span::new(next_start.min(span.end()), span.end())
             }
         }
 
